@@ -16,7 +16,8 @@
    independent reader and taste with box coordinates (not modelled: partial). *)
 From AK Require Import Base.Prelude Bytes.Text Bytes.FabHeader Bytes.BinFile Bytes.Word
   Reader.Select Reader.BoxRead Reader.Level Reader.ReadSpec Plotfile.Abstract Taste.CompleteProofs
-  Writers.Chef Writers.ChefProofs Writers.Chk2plt Writers.Chk2pltProofs Writers.ScatterProofs Writers.Chk2pltLevelProofs.
+  Writers.Chef Writers.ChefProofs Writers.Chk2plt Writers.Chk2pltProofs Writers.ScatterProofs Writers.Chk2pltLevelProofs
+  Plotfile.TextHeader Plotfile.HeaderSpec Writers.ChkHeader Writers.ChkHeaderProofs.
 
 (* Ghost stripping keeps exactly the interior: for every ghost width >= 1 in
    each direction (they may differ), every component c and every interior cell
@@ -190,4 +191,118 @@ Proof.
     + exists 0, 0, 0, 0, 0, 0. cbn. repeat split; lia.
     + exists 1, 0, 0, 1, 0, 0. cbn. repeat split; lia.
   - split; [vm_compute; repeat constructor; intros []|]. split; vm_compute; reflexivity.
+Qed.
+
+(* ---------------------------------------------------------------------- *)
+(* The checkpoint Header.  [whole t] stands for float(t) % 1 == 0 and [to_int t]
+   for int(float(t)) (parameters: any functions).
+
+   The repaired reader (commit d496cd6) reads back every well-formed checkpoint
+   header: with or without the optional integer line after the step number, and
+   WHATEVER the time is - there is no hypothesis on the value of the time. *)
+Theorem C17_checkpoint_header : forall whole to_int h,
+  wf_chk whole to_int h -> p_chk whole to_int (print_chk h) = Some (h, []).
+Proof. intros whole to_int h H. exact (p_chk_print whole to_int h H). Qed.
+Print Assumptions C17_checkpoint_header.
+
+(* The reader of the pinned commit recognised the integer line by the VALUE of
+   the first number after the step: it reads the header back exactly when that
+   value tells the two layouts apart (the integer line is one whole number /
+   the time is not a whole number) ... *)
+Theorem C17_checkpoint_header_pinned : forall whole to_int h,
+  wf_chk whole to_int h ->
+  match ch_int h with
+  | Some l => exists t, l = [t] /\ float_ok t = true /\ whole t = true
+  | None => whole (ch_time h) = false
+  end ->
+  p_chk_pinned whole to_int (print_chk h) = Some (h, []).
+Proof. intros whole to_int h H Hv. exact (p_chk_pinned_print whole to_int h H Hv). Qed.
+Print Assumptions C17_checkpoint_header_pinned.
+
+(* ... and fails on the initial checkpoint (time 0, no integer line), which the
+   repaired reader reads: the defect found by the C17 check and fixed. *)
+Definition ex_whole (t : token) : bool := mem t [bs "0"; bs "0.0"; bs "2.0"; bs "1"].
+Definition ex_to_int (t : token) : Z := match py_int t with Some z => z | None => 0 end.
+Definition ex_chk (time : token) (il : option line) : chk_header :=
+  {| ch_version := [bs "Checkpoint"; bs "version:"; bs "1"]; ch_max_level := 1; ch_step := 0; ch_int := il;
+     ch_time := time; ch_dt1 := bs "3.9e-12"; ch_dt2 := bs "3.5e-12";
+     ch_lo := [bs "0"; bs "0"; bs "0"]; ch_hi := [bs "0.016"; bs "0.016"; bs "0.032"];
+     ch_boxes := [[([0; 0; 0], [3; 3; 7])]; [([0; 0; 0], [3; 3; 3]); ([4; 4; 8], [7; 7; 15])]];
+     ch_tail := {| ct_pressure := bs "101325.0"; ct_sys := Some 0; ct_typvals := [bs "1.5"; bs "300.0"] |} |}.
+
+Lemma ex_chk_wf time il : float_ok time = true -> match il with Some l => starts_lp l = false | None => True end ->
+  wf_chk ex_whole ex_to_int (ex_chk time il).
+Proof.
+  intros Ht Hl. unfold wf_chk, ex_chk. cbn [ch_max_level ch_boxes ch_int ch_time ch_dt1 ch_dt2 ch_lo ch_hi ch_tail].
+  split; [lia|]. split; [reflexivity|]. split; [exact Hl|]. split; [exact Ht|].
+  split; [reflexivity|]. split; [reflexivity|].
+  split; [repeat constructor|]. split; [repeat constructor|].
+  split; [repeat constructor; discriminate|].
+  unfold wf_tail. cbn. repeat split; repeat constructor.
+Qed.
+
+Example C17_initial_checkpoint_refuted_on_pinned_reader :
+  wf_chk ex_whole ex_to_int (ex_chk (bs "0.0") None) /\
+  p_chk_pinned ex_whole ex_to_int (print_chk (ex_chk (bs "0.0") None)) = None /\
+  p_chk ex_whole ex_to_int (print_chk (ex_chk (bs "0.0") None)) = Some (ex_chk (bs "0.0") None, []).
+Proof.
+  split; [apply ex_chk_wf; [reflexivity|exact I]|]. split; vm_compute; reflexivity.
+Qed.
+
+(* non-vacuity of C17_checkpoint_header with the integer line present and a whole-number time *)
+Example C17_checkpoint_header_example :
+  wf_chk ex_whole ex_to_int (ex_chk (bs "2.0") (Some [bs "1"])) /\
+  p_chk ex_whole ex_to_int (print_chk (ex_chk (bs "2.0") (Some [bs "1"]))) = Some (ex_chk (bs "2.0") (Some [bs "1"]), []).
+Proof. split; [apply ex_chk_wf; reflexivity | vm_compute; reflexivity]. Qed.
+
+(* The plotfile Header chk2plt writes.  [frepr t] stands for Python's printing of
+   float(t), [dx_row lv] / [bounds lv] for the printed cell sizes and physical box
+   bounds of level lv (parameters).  Line by line, what write_global_header writes
+   is the printed form of header records (chk_g, chk_lvs): the field list, three
+   dimensions, the checkpoint's number of levels, steps and per-level box counts,
+   grid sizes 2^lv times the level-0 extent, Level_lv directories ... *)
+Theorem C17_written_header : forall frepr dx_row bounds h fields nout,
+  nout = blen fields ->
+  length (grid0 (hd [] (ch_boxes h))) = 3%nat ->
+  write_global_header frepr dx_row bounds h fields nout
+  = print_header (chk_g frepr dx_row h fields) (chk_lvs frepr bounds h).
+Proof. intros frepr dx_row bounds h fields nout Hn Hg. exact (write_global_header_print frepr dx_row bounds h fields nout Hn Hg). Qed.
+Print Assumptions C17_written_header.
+
+(* ... which the plotfile reader opens (C02), for every admissible level limit,
+   finding exactly those records: fields velocity, density, Y(species), rhoh,
+   temp, RhoRT, then the pressure gradient and the reaction rates when requested
+   (chk_fields), and per level the checkpoint's box count. *)
+Theorem C17_written_header_opens : forall frepr dx_row bounds h species do_gradp do_ir nout limit lim,
+  wf_written frepr dx_row bounds h -> nout = blen (chk_fields species do_gradp do_ir) ->
+  eff_limit (ch_max_level h) limit = Some lim -> 0 <= lim + 1 ->
+  open_header (write_global_header frepr dx_row bounds h (chk_fields species do_gradp do_ir) nout) limit
+  = Some {| o_g := chk_g frepr dx_row h (chk_fields species do_gradp do_ir);
+            o_keys := field_keys (chk_fields species do_gradp do_ir) []; o_limit := lim;
+            o_levels := restrict_levels lim (chk_lvs frepr bounds h) |}.
+Proof.
+  intros frepr dx_row bounds h species dg di nout limit lim Hwf Hn Heff Hlim.
+  exact (written_header_opens frepr dx_row bounds h (chk_fields species dg di) nout limit lim Hwf Hn Heff Hlim).
+Qed.
+Print Assumptions C17_written_header_opens.
+
+(* non-vacuity: the example checkpoint with tokens as Python prints them *)
+Definition ex_frepr (t : token) : token := if bytes_eqb t (bs "0") then bs "0.0" else t.
+Definition ex_dx (lv : Z) : list token := if lv =? 0 then [bs "0.004"; bs "0.004"; bs "0.004"] else [bs "0.002"; bs "0.002"; bs "0.002"].
+Definition ex_bounds (lv : Z) : list (list (token * token)) :=
+  if lv =? 0 then [[(bs "0.0", bs "0.016"); (bs "0.0", bs "0.016"); (bs "0.0", bs "0.032")]]
+  else [[(bs "0.0", bs "0.008"); (bs "0.0", bs "0.008"); (bs "0.0", bs "0.008")];
+        [(bs "0.008", bs "0.016"); (bs "0.008", bs "0.016"); (bs "0.016", bs "0.032")]].
+Example C17_written_header_example :
+  wf_written ex_frepr ex_dx ex_bounds (ex_chk (bs "0.0") None) /\
+  option_map (fun o => (g_names (o_g o), map lb_ncells (o_levels o), g_grid_hi (o_g o)))
+    (open_header (write_global_header ex_frepr ex_dx ex_bounds (ex_chk (bs "0.0") None) (chk_fields [bs "H2"] true false) 11) None)
+  = Some ([bs "x_velocity"; bs "y_velocity"; bs "z_velocity"; bs "density"; bs "Y(H2)"; bs "rhoh"; bs "temp"; bs "RhoRT";
+           bs "gradpx"; bs "gradpy"; bs "gradpz"], [1; 2], [[3; 3; 7]; [7; 7; 15]]).
+Proof.
+  split; [|vm_compute; reflexivity].
+  unfold wf_written. split; [cbn; lia|]. split; [reflexivity|]. split; [reflexivity|]. split; [reflexivity|].
+  split; [repeat constructor|]. split; [repeat constructor|].
+  intros lv Hlv. cbn [ex_chk ch_max_level] in Hlv.
+  assert (E : lv = 0 \/ lv = 1) by lia. destruct E as [-> | ->]; (split; [repeat constructor|]; split; [reflexivity|]; repeat constructor).
 Qed.
